@@ -10,11 +10,11 @@ import (
 
 // Analysis bundles a loaded program with memoised per-function results.
 type Analysis struct {
-	P       *Program
-	paths   map[*ssa.Function]*FuncPaths
-	effects map[*ssa.Function]*effectSet
-	escMemo map[*ssa.Alloc]bool
-	inprog  map[*ssa.Function]bool
+	P        *Program
+	paths    map[*ssa.Function]*FuncPaths
+	effects  map[*ssa.Function]*effectSet
+	escMemo  map[*ssa.Alloc]bool
+	inprog   map[*ssa.Function]bool
 	Mode     int             // inlining view: 0 none, 1 helpers not in the baseline, 2 every same-package function
 	Baseline map[string]bool // function names the rules were written against
 	recMemo  map[*ssa.Function]bool
